@@ -146,3 +146,211 @@ func miscFacts(s *src, f *facts) {
 	}
 	f.add("stateGlobals", globals, "package-level vars of rpc and utils other than error values / reflect.Type constants")
 }
+
+// lockFacts: every function body (declarations and literals, each on its own) releases what it locks on every
+// path: after `x.Lock()` each way out of the body passes exactly one `x.Unlock()` (or the Lock is followed by
+// `defer x.Unlock()`), branches that rejoin agree on what is held, and loops leave it unchanged.
+func lockFacts(s *src, f *facts) {
+	var bad []string
+	type held map[string]bool
+	clone := func(h held) held {
+		c := held{}
+		for k, v := range h {
+			if v {
+				c[k] = true
+			}
+		}
+		return c
+	}
+	same := func(a, b held) bool {
+		for k, v := range a {
+			if v && !b[k] {
+				return false
+			}
+		}
+		for k, v := range b {
+			if v && !a[k] {
+				return false
+			}
+		}
+		return true
+	}
+	lockOp := func(st ast.Stmt) (string, string) { // (mutex, "Lock"/"Unlock"/"deferUnlock")
+		var call *ast.CallExpr
+		kind := ""
+		switch v := st.(type) {
+		case *ast.ExprStmt:
+			call, _ = v.X.(*ast.CallExpr)
+		case *ast.DeferStmt:
+			call = v.Call
+			kind = "defer"
+		}
+		if call == nil {
+			return "", ""
+		}
+		sel, ok := call.Fun.(*ast.SelectorExpr)
+		if !ok {
+			return "", ""
+		}
+		switch sel.Sel.Name {
+		case "Lock", "RLock":
+			if kind == "" {
+				return s.str(sel.X), "Lock"
+			}
+		case "Unlock", "RUnlock":
+			return s.str(sel.X), kind + "Unlock"
+		}
+		return "", ""
+	}
+	var where string
+	fail := func(msg string) {
+		bad = append(bad, where+": "+msg)
+	}
+	// walk returns the held set after the statements and whether control certainly left (return / panic / break-less)
+	var walk func(list []ast.Stmt, h held, deferred held) (held, bool)
+	walk = func(list []ast.Stmt, h held, deferred held) (held, bool) {
+		for _, st := range list {
+			if mu, op := lockOp(st); op != "" {
+				switch op {
+				case "Lock":
+					if h[mu] {
+						fail("locks " + mu + " twice")
+					}
+					h[mu] = true
+				case "Unlock":
+					if !h[mu] {
+						fail("unlocks " + mu + " which is not held on this path")
+					}
+					delete(h, mu)
+				case "deferUnlock":
+					deferred[mu] = true
+				}
+				continue
+			}
+			switch v := st.(type) {
+			case *ast.ReturnStmt:
+				for mu := range h {
+					if !deferred[mu] {
+						fail("returns while holding " + mu)
+					}
+				}
+				return h, true
+			case *ast.ExprStmt:
+				if c, ok := v.X.(*ast.CallExpr); ok && s.str(c.Fun) == "panic" {
+					return h, true
+				}
+			case *ast.BlockStmt:
+				var left bool
+				h, left = walk(v.List, h, deferred)
+				if left {
+					return h, true
+				}
+			case *ast.IfStmt:
+				h1, l1 := walk(v.Body.List, clone(h), deferred)
+				h2, l2 := clone(h), false
+				switch e := v.Else.(type) {
+				case *ast.BlockStmt:
+					h2, l2 = walk(e.List, clone(h), deferred)
+				case *ast.IfStmt:
+					h2, l2 = walk([]ast.Stmt{e}, clone(h), deferred)
+				}
+				switch {
+				case l1 && l2:
+					return h, true
+				case l1:
+					h = h2
+				case l2:
+					h = h1
+				default:
+					if !same(h1, h2) {
+						fail("the branches of `if " + s.str(v.Cond) + "` disagree on the locks held")
+					}
+					h = h1
+				}
+			case *ast.ForStmt:
+				hb, _ := walk(v.Body.List, clone(h), deferred)
+				if !same(hb, h) {
+					fail("a loop body changes the locks held")
+				}
+			case *ast.RangeStmt:
+				hb, _ := walk(v.Body.List, clone(h), deferred)
+				if !same(hb, h) {
+					fail("a loop body changes the locks held")
+				}
+			case *ast.SwitchStmt, *ast.TypeSwitchStmt, *ast.SelectStmt:
+				var clauses []ast.Stmt
+				switch sw := v.(type) {
+				case *ast.SwitchStmt:
+					clauses = sw.Body.List
+				case *ast.TypeSwitchStmt:
+					clauses = sw.Body.List
+				case *ast.SelectStmt:
+					clauses = sw.Body.List
+				}
+				var outs []held
+				for _, cl := range clauses {
+					var body []ast.Stmt
+					switch c := cl.(type) {
+					case *ast.CaseClause:
+						body = c.Body
+					case *ast.CommClause:
+						body = c.Body
+					}
+					ho, left := walk(body, clone(h), deferred)
+					if !left {
+						outs = append(outs, ho)
+					}
+				}
+				for _, o := range outs {
+					if !same(o, outs[0]) {
+						fail("the arms of a switch/select disagree on the locks held")
+						break
+					}
+				}
+				if len(outs) > 0 {
+					h = outs[0]
+				}
+			}
+		}
+		return h, false
+	}
+	check := func(name string, body *ast.BlockStmt) {
+		if body == nil {
+			return
+		}
+		where = name
+		deferred := held{}
+		h, left := walk(body.List, held{}, deferred)
+		if !left {
+			for mu := range h {
+				if !deferred[mu] {
+					fail("ends while holding " + mu)
+				}
+			}
+		}
+	}
+	n := 0
+	for _, file := range s.files {
+		for _, d := range file.Decls {
+			fd, ok := d.(*ast.FuncDecl)
+			if !ok || fd.Body == nil {
+				continue
+			}
+			check(fd.Name.Name, fd.Body)
+			n++
+			k := 0
+			ast.Inspect(fd.Body, func(x ast.Node) bool {
+				if fl, ok := x.(*ast.FuncLit); ok {
+					k++
+					check(fd.Name.Name+".lit", fl.Body)
+				}
+				return true
+			})
+		}
+	}
+	ev := "all function bodies"
+	if len(bad) > 0 {
+		ev = strings.Join(bad, "; ")
+	}
+	f.b("locksBalanced", len(bad) == 0 && n > 0, ev)
+}
